@@ -1,12 +1,57 @@
 import Driver.Util
-/-! Driver section for C11 (stub until the model is online). -/
+import RxnModel.Model.Timers
+/-!
+Driver section for C11. Header: `M C11 <lateness> <maxBatch> <runners> <kgc>`.
+Runs `Wm.Watermarker`/`Wm.runnerStep` and the operator event loop `Timers.Op` (the definitions the theorems of
+Props/C11.lean are about).
+-/
 namespace Driver.C11
-open Rxn Driver
+open Rxn Driver Rxn.Timers
 
-def step (st : Unit) : List String → Unit × String
+structure St where
+  w : Wm.Watermarker := Wm.Watermarker.new 0
+  op : Op := ⟨Registry.new (Store.new [] 1 0 1 0) [], [], 1⟩
+
+def intOr (s : String) : Int := s.toInt?.getD 0
+
+def initSt (hdr : List String) : St :=
+  match hdr with
+  | ["M", _, lat, maxBatch, runners, kgc] =>
+    let ids := (List.range (natOr runners)).map fun i => s!"sr{i}"
+    -- the operator owns the whole key space; its timer cache is `size.GB`
+    let store := Store.new [] (natOr kgc) 0 (natOr kgc) 1073741824
+    -- `NewEventBatcher`: `MaxSize == 0` means 1
+    let mb := if natOr maxBatch = 0 then 1 else natOr maxBatch
+    { w := Wm.Watermarker.new (intOr lat), op := ⟨Registry.new store ids, [], mb⟩ }
+  | _ => {}
+
+def showEv : HEv → String
+  | .keyed k _ => s!"k{toHex k}"
+  | .expired k t => s!"x{toHex k}@{t}"
+
+def showReq (r : Req) : String := s!"[{r.told};{joinWith "," (r.events.map showEv)}]"
+
+def showReqs (rs : List Req) : String := if rs.isEmpty then "-" else joinWith "" (rs.map showReq)
+
+def parseInts (s : String) : List Int := if s == "-" then [] else (s.splitOn ",").map intOr
+
+def step (st : St) : List String → St × String
+  | "evs" :: ts =>
+    ({ st with w := (Wm.runnerStep st.w (.events (ts.map intOr))).1 }, "ok")
+  | ["tick"] =>
+    match Wm.runnerStep st.w .tick with
+    | (w, some v) => ({ st with w := w }, toString v)
+    | (w, none) => ({ st with w := w }, "none")
+  | ["keyed", _, k, ts] =>
+    let r := st.op.keyed (hexOr k) (parseInts ts)
+    ({ st with op := r.1 }, s!"c={r.1.reg.wm} {showReqs r.2}")
+  | ["wm", i, t] =>
+    let r := st.op.watermark s!"sr{natOr i}" (intOr t)
+    ({ st with op := r.1 }, s!"c={r.1.reg.wm} {showReqs r.2}")
   | _ => (st, "bad-op")
 
 def handle (lines : Array String) (i : Nat) (out : Array String) : Nat × Array String :=
-  runLines step () lines i out
+  let hdr := if i = 0 then [] else words (lines.getD (i - 1) "")
+  runLines step (initSt hdr) lines i out
 
 end Driver.C11
